@@ -22,6 +22,7 @@ Provides classes for generating and analyzing complex climate networks.
 
 #  Import NumPy for the array object and fast numerics
 import numpy as np
+from scipy.stats import rankdata
 
 #  Import cnTsonisClimateNetwork for TsonisClimateNetwork class
 from .tsonis import TsonisClimateNetwork
@@ -115,8 +116,8 @@ class SpearmanClimateNetwork(TsonisClimateNetwork):
         :rtype: 2D Numpy array [time, index]
         :return: the rank time series.
         """
-        #  Obtain rank time series
-        rank_time_series = anomaly.argsort(axis=0).argsort(axis=0)
+        #  Obtain rank time series, tied values share the mean of their ranks
+        rank_time_series = rankdata(anomaly, axis=0)
 
         return rank_time_series
 
